@@ -4,7 +4,7 @@
 From Coq Require Import String.
 From Coq Require Import List Ascii ZArith Bool Lia Sorting.Permutation.
 From CGV Require Import Base.PyBase Base.PyVal Base.NxGraph Resolve.Bonding Resolve.GraphOps Resolve.Pipeline Resolve.PipelineFull
-     Resolve.MapProofs Resolve.CopyProofs Resolve.FragidProofs Resolve.NameProofs Resolve.NameStep.
+     Resolve.MapProofs Resolve.CopyProofs Resolve.FragidProofs Resolve.NameProofs Resolve.NameStep Resolve.SingleFragid.
 From CGV Require Hydro.Hydrogens Hydro.Squash Stereo.EzImpl Stereo.EzProofs.
 Import ListNotations.
 Open Scope Z_scope.
@@ -26,7 +26,8 @@ Qed.
 
 (** ---------------------------------------------------------------- one coarse node *)
 Definition elem (mol : graph) (n : Z) (e : pystr) : Prop := exists el, node_get mol n (S "element") = Some el /\ as_str el = Ok e.
-Definition unshared (mol : graph) (n : Z) : Prop := forall a, node_attrs mol n = Ok a -> fragid_shared a = Ok false.
+(** the fragid of n does not read as "several fragments" (no fragid, or fewer than two entries) *)
+Definition unshared (mol : graph) (n : Z) : Prop := forall a, node_attrs mol n = Ok a -> fragid_shared a <> Ok true.
 
 Lemma descs_plain mol named : forall nodes ds, (forall n, In n nodes -> ~ In n named) -> (forall n, In n nodes -> unshared mol n) ->
   GraphOps.map_res (desc_of mol named) nodes = Ok ds ->
@@ -40,7 +41,7 @@ Proof.
     unfold desc_of in Ed. destruct (node_attrs mol n) as [a|] eqn:Ea; cbn [bind] in Ed; [|discriminate Ed].
     assert (zin_l n named = false) as Hz.
     { destruct (zin_l n named) eqn:Z; [|reflexivity]. apply zin_l_In in Z. exfalso. apply (Hnn n (or_introl eq_refl) Z). }
-    rewrite Hz, (Hu n (or_introl eq_refl) a Ea) in Ed. cbn [bind] in Ed.
+    rewrite Hz in Ed. destruct (fragid_shared a) as [[|]|] eqn:Es; cbn [bind] in Ed; [exfalso; exact (Hu n (or_introl eq_refl) a Ea Es)| |discriminate Ed].
     destruct (aget (S "element") a) as [el|] eqn:Eel; cbn [of_option bind] in Ed; [|discriminate Ed].
     destruct (as_str el) as [e|] eqn:Ee; cbn [bind] in Ed; [|discriminate Ed]. apply ok_inj2 in Ed. subst d.
     exists (e :: es). split; [reflexivity|]. constructor; [|exact F]. exists el. split; [|exact Ee].
@@ -120,7 +121,7 @@ Qed.
 Lemma unshared_not_sh mol n : unshared mol n -> ~ is_sh (fun k => node_get mol k (S "fragid")) n.
 Proof.
   intros Hu Hs. unfold is_sh, node_get in Hs. unfold unshared, node_attrs in Hu. destruct (gfind n mol) as [r|]; [|discriminate Hs].
-  specialize (Hu (na r) eq_refl). rewrite fragid_shared_fsv in Hu. congruence.
+  apply (Hu (na r) eq_refl). now rewrite fragid_shared_fsv.
 Qed.
 
 Theorem names_closed_form mol meta fgs mol' fgs' : set_atom_names mol meta fgs = Ok (mol', fgs') ->
@@ -181,4 +182,17 @@ Proof.
   exists e. split; [exact Hel|].
   assert (nth_error (map (name_in (fo_mol fo)) (node_keys g)) i = Some (name_in (fo_mol fo) n)) as A by (now apply map_nth_error).
   rewrite N in A. rewrite (map_nth_error Some i _ (labels_nth es 0 i e He)) in A. rewrite Z.add_0_l in A. congruence.
+Qed.
+
+(** ---------------------------------------------------------------- steps that squash nothing *)
+(** no hypothesis about intermediate graphs is left: for every all-atom end-to-end step that squashes nothing (fo_m3 = fo_m2), on a
+    coarse graph with distinct keys and a well-formed dictionary, the i-th atom of every returned coarse node is named
+    element ++ str(i) *)
+Theorem step_name_at_nosquash legacy fd prev car fo : wf_dict fd -> wf_attrs fd ->
+  resolve_step_full legacy true fd prev car = Ok fo -> fo_m3 fo = fo_m2 fo -> NoDup (node_keys prev) ->
+  forall k g i n, In (k, g) (fo_fgs fo) -> nth_error (node_keys g) i = Some n ->
+  exists e, elem (fo_m6 fo) n e /\ name_in (fo_mol fo) n = Some (VStr (atom_label e (Z.of_nat i))).
+Proof.
+  intros Hw Hwa H Hs Hp. apply (step_name_at _ _ _ _ _ H Hp). intros n a Ha.
+  exact (step_not_shared _ _ _ _ _ _ Hw Hwa H Hs n a Ha).
 Qed.
